@@ -139,6 +139,20 @@ def set_limits(leaf_limits, mid_limits, hog_limits=None):
             t._task_options_base["limits"] = lim
 
 
+def unpicklable_outcome(spec, outcome):
+    """A CAUGHT failure whose exception object cannot be pickled (mode 4): redun cannot hand the object to the recover task
+    (arguments are hashed by pickling -> TypeError) and records a plain substitute Exception that the catch's error class
+    does not match; which of these surfaces depends on whether the failing call was deduplicated.  The run terminates by
+    raising; the outcome oracles of C09 / C12 (termination; uncaught failures) accept it."""
+    if outcome[0] != "error":
+        return False
+    if not any(fail and caught and mode == 4 for (x, fail, caught, mode) in spec):
+        return False
+    err = outcome[1]
+    text = str(err)
+    return isinstance(err, UnpicklableError) or "cannot pickle" in text or "UnpicklableError" in text
+
+
 def expected(spec, with_bad=False):
     """What the reduction semantics prescribe for the template: value, or the first uncaught failure in evaluation order
     is *an* admissible error (any uncaught failing leaf may be the one reported, depending on completion order)."""
